@@ -34,7 +34,17 @@ type snapItem struct{ path, val string }
 // snapshot: ToBytes, Summary/String and every accessor result, rendered deterministically.
 func snapshot(v any, helpers []obs.Named) []snapItem {
 	var out []snapItem
-	for _, c := range obs.Enumerate(v, 4) {
+	calls := obs.Enumerate(v, 4)
+	if l, ok := v.(*optList); ok { // every entry of the list, and the list as a whole
+		calls = obs.Enumerate(l.L, 1)
+		for i, e := range l.L {
+			for _, c := range obs.Enumerate(e, 3) {
+				c.Path = fmt.Sprintf("list[%d].%s", i, c.Path)
+				calls = append(calls, c)
+			}
+		}
+	}
+	for _, c := range calls {
 		var s string
 		pan, val, _ := mon.Guard(func() { s = obs.Render(c.Fn()) })
 		if pan {
@@ -119,7 +129,38 @@ func fill(b []byte, pat string, rng *rand.Rand, next []byte) {
 	}
 }
 
+// optList: an options list decoded by Options.FromBytesWithParser with a parser of the caller's (the exported way to
+// decode options of one's own); the entries the parser declined (nil) are left out
+type optList struct{ L dhcpv6.Options }
+
+// callerParser: typed decoding for most codes, an own copy for some, and some declined
+func callerParser(code dhcpv6.OptionCode, data []byte) (dhcpv6.Option, error) {
+	switch {
+	case code%5 == 3 || code >= 0x100:
+		return nil, nil
+	case code%5 == 4:
+		return &dhcpv6.OptionGeneric{OptionCode: code, OptionData: append([]byte{}, data...)}, nil
+	}
+	return dhcpv6.ParseOption(code, data)
+}
+
 func decode(fam string, b []byte) (any, []byte, error) {
+	if fam == "v6opts" { // the options area of a (non-relay) DHCPv6 message
+		if len(b) < 4 || b[0] == 12 || b[0] == 13 {
+			return nil, nil, fmt.Errorf("not a message")
+		}
+		var o dhcpv6.Options
+		if err := o.FromBytesWithParser(b[4:], callerParser); err != nil {
+			return nil, nil, err
+		}
+		l := &optList{}
+		for _, e := range o {
+			if e != nil {
+				l.L = append(l.L, e)
+			}
+		}
+		return l, nil, nil
+	}
 	if fam == "v4" {
 		p, err := dhcpv4.FromBytes(b)
 		if err != nil {
@@ -150,6 +191,8 @@ func encode(v any) []byte {
 		return x.ToBytes()
 	case dhcpv6.DHCPv6:
 		return x.ToBytes()
+	case *optList:
+		return x.L.ToBytes()
 	}
 	return nil
 }
@@ -280,7 +323,7 @@ func judge(r *mon.Rec, fam string, wire, next []byte, rng *rand.Rand, onlyPatter
 	// shape
 	shape := fam
 	nt := false
-	if fam == "v6" {
+	if fam == "v6" || fam == "v6opts" {
 		if res := ref6.Decode(wire); res.Tree != nil {
 			k := map[string]int{}
 			res.Tree.Kinds(k)
@@ -442,6 +485,9 @@ func TestCheck(t *testing.T) {
 				continue
 			}
 			judge(r, "v6", w, prev6, rng, "")
+			if rng.IntN(4) == 0 {
+				judge(r, "v6opts", w, prev6, rng, "")
+			}
 			prev6 = w
 		}
 	}
